@@ -41,7 +41,7 @@ func c01Eval(w *mc.W, cas c01Case) {
 
 	var addr bchutil.Address
 	var err error
-	var wantStr string  // what the specification prescribes for EncodeAddress (String for pubkeys)
+	var wantStr string // what the specification prescribes for EncodeAddress (String for pubkeys)
 	var wantScript []byte
 	cash, slp, legacy, pub := false, false, false, false
 	prefix := rn.CashPrefix
